@@ -1443,8 +1443,26 @@ class PEval:
         if isinstance(a0, list) and fname == "repeat" and len(args) == 2 and isinstance(args[1], int) and "slice" in path:
             return list(a0) * args[1]
         if isinstance(a0, list) and fname == "insert" and len(args) == 3 and isinstance(args[1], int):
+            if args[1] > len(a0):
+                if self.panics:
+                    raise Panic("Vec::insert out of bounds")
+                return self.unknown("Vec::insert beyond the end (a panic)")
             a0.insert(args[1], args[2])
             return UNIT
+        if isinstance(a0, list) and fname == "drain" and len(args) == 2 and "vec" in path.lower():
+            r_ = args[1]
+            lo_, hi_ = 0, len(a0)
+            ok_ = isinstance(r_, Struct) and r_.adt.startswith("core::ops::range::Range")
+            if ok_:
+                st_, en_ = r_.fields.get("start"), r_.fields.get("end")
+                if st_ is not None:
+                    lo_ = st_
+                if en_ is not None:
+                    hi_ = en_ + 1 if isinstance(en_, int) and r_.adt.endswith("RangeInclusive") else en_
+            if ok_ and isinstance(lo_, int) and isinstance(hi_, int) and 0 <= lo_ <= hi_ <= len(a0):
+                out_ = a0[lo_:hi_]
+                del a0[lo_:hi_]
+                return Iter(out_)
         if isinstance(a0, list) and fname == "pop" and len(args) == 1:
             return some(a0.pop()) if a0 else NONE
         if isinstance(a0, list) and fname == "clear":
